@@ -196,11 +196,14 @@ def make_stubs():
         pass
 
     class OpaqueDatetime:
-        def __init__(self, tzinfo):
+        __symex_carrier__ = True
+
+        def __init__(self, tzinfo, fields=None):
             self.tzinfo = tzinfo
+            self.fields = fields
 
         def replace(self, tzinfo=None):
-            return OpaqueDatetime(tzinfo)
+            return OpaqueDatetime(tzinfo, self.fields)
 
     def timezone_stub(I, offset, *a):
         """datetime.timezone(offset): ValueError unless -24h < offset < 24h"""
@@ -218,6 +221,8 @@ def make_stubs():
         from symex.core import SInt
 
         tz = kw.get("tzinfo")
+        if len(a) == 7 and tz is None and not kw:
+            a, tz = a[:6], a[6]
         if not (any(isinstance(x, SInt) for x in a) or isinstance(tz, OpaqueTz)) or len(a) != 6 or set(kw) - {"tzinfo"}:
             return datetime.datetime(*a, **kw)
         for x in a:
@@ -242,7 +247,7 @@ def make_stubs():
             raise ValueError("minute must be in 0..59")
         if ss < 0 or ss > 59:
             raise ValueError("second must be in 0..59")
-        return OpaqueDatetime(tz)
+        return OpaqueDatetime(tz, tuple(a))
 
     import urllib.parse
 
